@@ -448,6 +448,19 @@ def observe(m, o):
                     runs.append({"outputs": [vec(row) for row in np.asarray(res["outputs"])],
                                  "derived": {k2: vec(np.asarray(v)) for k2, v in res["derived_outputs"].items()}})
                 rec["runs"] = runs
+                if len(psets) > 1:
+                    # compiled once, valid for every parameter value: the second set on the runner built with the first
+                    # against a runner built with the second
+                    fresh = m.get_runner(psets[1], solver=sname, jit=True, **({"solver_args": json.loads(sargs)} if sargs else {}),
+                                         **({"dyn_params": o["dyn"]} if o.get("dyn") is not None else {}))
+                    fres = fresh._run_func(parameters=psets[1] if o.get("dyn") is None else {k2: v for k2, v in psets[1].items() if k2 in o["dyn"]})
+                    if o.get("dyn") is None:
+                        a_, b_ = np.asarray(res["outputs"], dtype=float), np.asarray(fres["outputs"], dtype=float)
+                        if np.isfinite(a_).all() and np.isfinite(b_).all():
+                            d_ = float(np.abs(a_ - b_).max() / (1.0 + np.abs(b_).max()))
+                            rec["reuse_vs_fresh"] = d_ if d_ > 1e-9 else 0.0
+                            if d_ > 1e-9:
+                                rec["reuse_row0"] = [vec(a_[0]), vec(b_[0])]
                 one = jax.jit(runner.impl_dict["one_step"])
                 r1 = one(psets[0], num(o["t"]), np.array([num(v) for v in o["x"]]))
                 rec["one_step"] = {"flow_rates": vec(np.asarray(r1.flow_rates)), "comp_rates": vec(np.asarray(r1.comp_rates))}
